@@ -305,9 +305,23 @@ Section Hub.
 
   Notation first := (c_first cfg).
 
+  (* the final part is a parent-linked run that rests on the discovered LIB block a, or starts with it *)
+  Definition FinRooted (a : block) (Fin : list block) : Prop :=
+    linked (bid a) Fin \/ exists F', Fin = a :: F' /\ linked (bid a) F'.
+
+  Lemma fin_rooted_app a Fin F2 : FinRooted a Fin -> linked (bid (libblk a Fin)) F2 -> FinRooted a (Fin ++ F2).
+  Proof.
+    intros [H|(F' & -> & H)] H2.
+    - left. apply linked_app_iff. split; [exact H|]. rewrite <- libblk_tip0. exact H2.
+    - right. exists (F' ++ F2). split; [reflexivity|]. apply linked_app_iff. split; [exact H|].
+      replace (tip (bid a) F') with (bid (libblk a (a :: F'))); [exact H2|].
+      change (a :: F') with ([a] ++ F'). rewrite libblk_tip. reflexivity.
+  Qed.
+
   Definition DiscOut2 (res : fstate * list event * result) : Prop :=
     exists a s' evs Fin S' c',
-      res = (s', evs, ROk) /\ Post a s' Fin S' c' /\ cons_fold cons0 evs = Some c' /\ MidFacts cons0 evs a Fin.
+      res = (s', evs, ROk) /\ Post a s' Fin S' c' /\ cons_fold cons0 evs = Some c' /\ MidFacts cons0 evs a Fin /\
+      FinRooted a Fin.
 
   Lemma pii_ok2 b s2 : exists s' eI,
     process_initial_inclusive cfg b s2 = (s', [mkEv SNew b (bref b) (bref b) (cursor_lib s2) None 0 0; eI], true) /\
@@ -346,7 +360,7 @@ Section Hub.
     set (ev := mkEv SNew b (bref b) (bref b) (bref b) None 0 0).
     assert (Hdb' : db s' = d2) by (rewrite Hdb; reflexivity).
     exists b, s', [ev; eI], [b], [b], (mkCons [b] 1 true).
-    split; [reflexivity|]. split; [|split].
+    split; [reflexivity|]. split; [|split; [|split; [|right; exists []; split; [reflexivity | exact I]]]].
     - constructor.
       + exact Hb.
       + constructor; rewrite ?Hdb'.
@@ -466,7 +480,7 @@ Section Hub.
     assert (HS3ne : S3 <> []).
     { unfold S3. cbn [app]. rewrite map_app, rev_app_distr. discriminate. }
     exists (eb a), s', (evRN ++ [eI]), [], S3, (mkCons S3 0 true).
-    split; [reflexivity|]. split; [|split].
+    split; [reflexivity|]. split; [|split; [|split; [|left; exact I]]].
     - constructor.
       + exact HaU.
       + exact HI'.
